@@ -21,7 +21,8 @@ ASSUMPTIONS = [
     "no generated code catches the Probe exception, so its traceback is exactly the unwinding path",
 ]
 MIN_NONTRIVIAL = {"quick": 3000, "thorough": 40000}
-REQUIRED_COUNTERS = {"obs_nonframe_leaf": {"quick": 300, "thorough": 3000},
+REQUIRED_COUNTERS = {"earlier_suspensions_observed_on_the_way": {"quick": 5000, "thorough": 50000},
+                     "obs_nonframe_leaf": {"quick": 300, "thorough": 3000},
                      "obs_falsy_leaf": {"quick": 100, "thorough": 1000},
                      "chains_deeper_than_100": {"quick": 6, "thorough": 6},
                      "chains_with_agen_payload": {"quick": 100, "thorough": 1000},
@@ -63,8 +64,15 @@ def check_chain(spec, res, interp, chains, stackscope, state):
     t.close()
     for j in range(n):
         t = chains.Target(spec)
-        for _ in range(j + 1):
+        for i in range(j + 1):
             t.step()
+            if i < j and j % 2 == 0:
+                # the same target looked at on the way, at its earlier suspension points: what was seen (or
+                # remembered) then must not leak into what is seen now
+                with warnings.catch_warnings():
+                    warnings.simplefilter("ignore")
+                    stackscope.extract(t.x)
+                res.count("earlier_suspensions_observed_on_the_way")
         res.evaluations += 1
         with warnings.catch_warnings(record=True) as w:
             warnings.simplefilter("always")
